@@ -25,7 +25,8 @@ class Mac:
 
     def define(self, rng):
         # body: list of str or int (parameter number)
-        b = ''.join(('#%d' % x) if isinstance(x, int) else x for x in self.body)
+        b = ''.join(('#%d' % x) if isinstance(x, int) else x[0] if isinstance(x, tuple) else x
+                    for x in self.body)
         if self.default is None and rng.random() < 0.3 and self.nargs <= 9:
             return '\\def' + self.name + ''.join('#%d' % i for i in range(1, self.nargs + 1)) \
                 + '{' + b + '}'
@@ -38,7 +39,8 @@ class Mac:
         return s + '{' + b + '}'
 
     def expand(self, args):
-        return ''.join(args[x - 1] if isinstance(x, int) else x for x in self.body)
+        return ''.join(args[x - 1] if isinstance(x, int) else x[1] if isinstance(x, tuple) else x
+                       for x in self.body)
 
 
 def gen_set(rng, words):
@@ -53,6 +55,12 @@ def gen_set(rng, words):
         for _ in range(rng.randint(0, 4)):
             if nargs and rng.random() < 0.6:
                 body.append(rng.randint(1, nargs))
+            elif rng.random() < 0.15:
+                # a control word in the body whose name starts like the name
+                # being defined, or contains it: another macro (undeclared:
+                # it vanishes; built-in: its text)
+                body.append(rng.choice([(name + 'xx{}', ''), (name + 'long{}', ''),
+                                        ('\\LaTeX{}', 'LaTeX'), ('\\x' + name[1:] + '{}', '')]))
             else:
                 body.append(rng.choice(['x', 'Y', '(', ')', 'w' + 'abcd'[k], ' ']))
         macs.append(Mac(name, nargs, default, body))
